@@ -777,7 +777,7 @@ impl Monitor for C11 {
     }
     fn streams(&self, tier: Tier, budget: f64) -> Vec<Stream> {
         let n = match tier {
-            Tier::Quick => 60_000,
+            Tier::Quick => 200_000,
             Tier::Thorough => 3_000_000,
         };
         vec![Stream::new("forced-empty-and-single", 8), Stream::new("histories", scaled(n, budget))]
